@@ -280,7 +280,9 @@ func init() {
 				continue
 			}
 			rec := w.Universe[op]
-			if rec.Kind == KOpReturn || (rec.Kind == KP2WPKH && !bp.segwit) || rec.Value <= 0 {
+			if rec.Kind == KOpReturn || (rec.Kind == KP2WPKH && !bp.segwit) || rec.Value <= 0 || rec.Value > 21e14 {
+				// (outputs of context-free invalid transactions would make
+				// the spender itself context-free invalid)
 				continue
 			}
 			cands = append(cands, op)
@@ -343,8 +345,12 @@ func init() {
 	}})
 	// BIP68 relative height lock: input confirmed at rec.Height, lock of n
 	// blocks is met when height >= rec.Height + n.
-	seqlock := func(name, class string, off int32) {
+	seqlock := func(name, class string, off int32, versions ...int32) {
 		reg(&mutation{name: name, class: class, txs: func(bp *blockPlan) bool {
+			ver := int32(2)
+			if len(versions) > 0 {
+				ver = versions[bp.w.C.Intn(len(versions), "seqlock-version")]
+			}
 			if !bp.csv {
 				return false
 			}
@@ -357,7 +363,7 @@ func init() {
 				if n <= 0 || n > 0xffff {
 					continue
 				}
-				bp.simpleSpend(op, rec, 0, func(p *txPlan) { p.Version = 2; p.Ins[0].Seq = uint32(n) })
+				bp.simpleSpend(op, rec, 0, func(p *txPlan) { p.Version = ver; p.Ins[0].Seq = uint32(n) })
 				return true
 			}
 			return false
@@ -365,6 +371,12 @@ func init() {
 	}
 	seqlock("bip68-height-lock-unmet", ClsConnect, 1)
 	seqlock("bip68-height-lock-met", ClsValid, 0)
+	// the version field is an unsigned 32-bit number for BIP68: versions with
+	// the top bit set, and versions above 2, are bound by it as well
+	seqlock("bip68-height-lock-unmet-odd-version", ClsConnect, 1, 3, -1, -2147483648, 0x7fffffff)
+	seqlock("bip68-height-lock-met-odd-version", ClsValid, 0, 3, -1, -2147483648, 0x7fffffff)
+	// version 1 (and 0) transactions are not bound by BIP68
+	seqlock("bip68-version-1-not-bound", ClsValid, 1, 1, 0)
 	// the same unmet relative lock is not a rule before the CSV deployment is
 	// active: the verdict must flip exactly at activation
 	reg(&mutation{name: "bip68-unmet-before-csv-activation", class: ClsValid, txs: func(bp *blockPlan) bool {
